@@ -148,6 +148,14 @@ func solveAll(d *Driver, fvcs []*FuncVC, dir string, timeoutMs int, keepText boo
 					}
 				}
 				r := runQuery(dir, o.Name, txt, tmo)
+				if o.Expect != "sat" && r.Status == "unknown" && o.Kind != "guard-decl" && o.Kind != "guard-confined" && o.Kind != "guard-immutable" && o.Kind != "guard-atomic" {
+					// undecided within the budget: one more attempt with twice the time before it is reported, so that a
+					// loaded machine does not turn a slow proof into an alarm
+					r2 := runQuery(dir, o.Name+"_retry", txt, 2*tmo)
+					if r2.Status != "unknown" {
+						r = r2
+					}
+				}
 				res := &oblResult{O: o, R: r, VC: f.VC}
 				if keepText {
 					res.Txt = txt
